@@ -375,6 +375,11 @@ class World(object):
         return (url, action, m)
 
 
+class CloneFailed(Exception):
+    """Client.clone() raised (the message says what); not a RuntimeError so
+    that it is never mistaken for an infrastructure failure."""
+
+
 def run_impl(f):
     try:
         return ("ok", f())
@@ -796,8 +801,13 @@ class Scheduler(object):
         if self.budget > 0:
             return
         code = frame.f_code
+        stack, f = [], frame.f_back
+        while f is not None and len(stack) < 10:
+            if f.f_code.co_filename.startswith(self.w.suds_dir):
+                stack.append("%s:%s" % (os.path.basename(f.f_code.co_filename), f.f_code.co_name))
+            f = f.f_back
         self.switches.append((tid, self.count[tid], "%s:%s:%s" % (
-            os.path.basename(code.co_filename), code.co_name, event)))
+            os.path.basename(code.co_filename), code.co_name, event), stack))
         nxt = self.next_segment(tid)
         if nxt is None or nxt == tid:
             return
@@ -943,7 +953,10 @@ class Setup(object):
                 c = world.new_client(v)
             else:
                 src = clients[-1] if self.relation == "clone2" else first
-                c = src.clone()
+                r = run_impl(src.clone)
+                if r[0] != "ok":
+                    raise CloneFailed(r[1])
+                c = r[1]
                 if VARIANTS[v]:
                     c.set_options(**VARIANTS[v])
             clients.append(c)
@@ -1097,9 +1110,15 @@ def run(ck):
     for n, (kind, variant, how) in enumerate(fp_plan):
         clients = [world.new_client(variant if how == "orig" else "plain")]
         if how in ("clone", "clone2"):
-            clients.append(clients[0].clone())
-            if how == "clone2":
-                clients.append(clients[1].clone())
+            rcl = run_impl(clients[0].clone)
+            if rcl[0] == "ok" and how == "clone2":
+                clients.append(rcl[1])
+                rcl = run_impl(clients[1].clone)
+            if rcl[0] != "ok":
+                ck.failing_input("C13:clone-fails", "Client.clone() raises %s" % rcl[1],
+                                 {"probe": "clone", "history": [], "how": how})
+                continue
+            clients.append(rcl[1])
             if VARIANTS[variant]:
                 clients[-1].set_options(**VARIANTS[variant])
         which = len(clients) - 1
@@ -1114,6 +1133,7 @@ def run(ck):
                 clist([ow_term(d) for d in m["transient"]], "obs_write"), cN(m["msg_reads"]))
             fp_cases.append(term)
             fp_meta.append({"kind": kind, "variant": variant, "how": how, "mode": mode, "spec": spec,
+                            "client_no": m["client_no"],
                             "writes": [(d["what"], d["empty"], d["idem"]) for d in m["writes"]],
                             "transient": [(d["what"], d["empty"], d["idem"]) for d in m["transient"]],
                             "msg_reads": m["msg_reads"], "result": m["result"][0]})
@@ -1165,9 +1185,8 @@ def run(ck):
         m = fp_meta[i]
         if fp_class(m) == "C13:message-history-shared":
             ck.failing_input("C13:message-history-shared",
-                             "a %s call through one client (%s, %s) touches the message history of another "
-                             "client, or reads the slot: writes %s; reads %d"
-                             % (m["kind"], m["how"], m["mode"], [w[0] for w in m["writes"]][:4], m["msg_reads"]),
+                             "a %s call through client %d (%s, %s) writes the message history of another "
+                             "client: %s" % (m["kind"], m["client_no"], m["how"], m["mode"], fp_offenders(m)),
                              {"mode": "footprint", "case": m})
         elif not found_schedule:
             problems.append(("footprint condition: a %s call (%s, %s) leaves shared state behind that is "
@@ -1199,23 +1218,26 @@ def run(ck):
 
 def fp_offenders(m):
     bad = []
+    own = "of client %d" % m.get("client_no", 0)
     for what, empty, idem in m["writes"] + m["transient"]:
         if "messages[" in what:
+            if not what.endswith(own):
+                bad.append(what + " (ANOTHER client's history)")
             continue
         if ("resolved_cache" in what or "Factory.cache" in what) and empty and idem:
             continue
         bad.append(what)
-    return "; ".join(bad[:6]) or "(message slot of another client / messages read)"
+    if m.get("msg_reads"):
+        bad.append("Client.messages is read %d time(s) during the call" % m["msg_reads"])
+    return "; ".join(bad[:6])
 
 
 def fp_class(m):
     text = fp_offenders(m)
+    if "ANOTHER client's history" in text:
+        return "C13:message-history-shared"
     if "MultiRef" in text:
         return "C13:shared-multiref-state"
-    if "message" in text:
-        return "C13:message-history-shared"
-    if "resolved_cache" in text or "Factory.cache" in text:
-        return "C13:memo-not-idempotent"
     return "C13:shared-state-written"
 
 
@@ -1382,7 +1404,8 @@ def schedule_cases(ck, world, runner, rng, quick, memo_cells, suspicious_fp, fp_
                 what = "thread %d (%s) preempted at %s did not send the request built from its own arguments" % (t, kind, where)
             else:
                 what = "thread %d (%s) preempted at %s: %s" % (t, kind, where, o["detail"])
-            if "multiref.py" in where or ":get_reply:" in where or o["res"] == 1:
+            stack = s.switches[0][3] if s.switches else []
+            if "multiref.py" in where or any(fr.startswith("multiref.py:") for fr in stack):
                 cls = "C13:shared-multiref-state"
             elif o["res"] in (3, 4):
                 cls = "C13:call-fails-under-concurrency"
@@ -1403,26 +1426,31 @@ def schedule_cases(ck, world, runner, rng, quick, memo_cells, suspicious_fp, fp_
     wit_pairs = [("enc-item", "enc-echo"), ("enc-echo", "enc-item"), ("enc-item", "enc-item"),
                  ("doc-find", "enc-item"), ("lit-item", "lit-echo")]
     for wn, (ka, kb) in enumerate(wit_pairs):
-        setup = Setup("same", ["plain"], [(0, ka, gen_spec(rng, ka, "WA%d" % wn)),
-                                          (0, kb, gen_spec(rng, kb, "WB%d" % wn))])
-        total_a, names = runner.count_events(setup, 0)
-        total_b, _ = runner.count_events(Setup("same", ["plain"], [setup.threads[1]]), 0)
-        steps = [i for i, nm in enumerate(names, 1)
-                 if nm.split(":")[0] == "multiref.py" and nm.split(":")[1] in ("process", "build_catalog", "update")]
-        tops = [i for i, nm in enumerate(names, 1) if nm.startswith("multiref.py:process:")]
-        # every event of process/build_catalog, the first and last few of update, and get_reply's own events
-        upd = [i for i in steps if names[i - 1].startswith("multiref.py:update:")]
-        chosen = sorted(set(tops + [i for i in steps if not names[i - 1].startswith("multiref.py:update:")]
-                            + upd[:3] + upd[-3:]
-                            + [i for i, nm in enumerate(names, 1) if ":get_reply:" in nm]))
-        clients = None
-        for k in chosen:
-            plan = [(0, k), (1, None)]
-            outs, sch, solos, clients = runner.run_schedule(setup, plan, False, clients=clients)
-            record(setup, plan, False, False, outs, sch, solos, [total_a, total_b],
-                   "witness replay: A suspended inside MultiRef.process/get_reply")
-            if any(not (o["req_own"] and o["res"] == 0) for o in outs):
-                clients = None
+        try:
+            setup = Setup("same", ["plain"], [(0, ka, gen_spec(rng, ka, "WA%d" % wn)),
+                                              (0, kb, gen_spec(rng, kb, "WB%d" % wn))])
+            total_a, names = runner.count_events(setup, 0)
+            total_b, _ = runner.count_events(Setup("same", ["plain"], [setup.threads[1]]), 0)
+            steps = [i for i, nm in enumerate(names, 1)
+                     if nm.split(":")[0] == "multiref.py" and nm.split(":")[1] in ("process", "build_catalog", "update")]
+            tops = [i for i, nm in enumerate(names, 1) if nm.startswith("multiref.py:process:")]
+            # every event of process/build_catalog, the first and last few of update, and get_reply's own events
+            upd = [i for i in steps if names[i - 1].startswith("multiref.py:update:")]
+            chosen = sorted(set(tops + [i for i in steps if not names[i - 1].startswith("multiref.py:update:")]
+                                + upd[:3] + upd[-3:]
+                                + [i for i, nm in enumerate(names, 1) if ":get_reply:" in nm]))
+            clients = None
+            for k in chosen:
+                plan = [(0, k), (1, None)]
+                outs, sch, solos, clients = runner.run_schedule(setup, plan, False, clients=clients)
+                record(setup, plan, False, False, outs, sch, solos, [total_a, total_b],
+                       "witness replay: A suspended inside MultiRef.process/get_reply")
+                if any(not (o["req_own"] and o["res"] == 0) for o in outs):
+                    clients = None
+        except CloneFailed as e:
+            ck.failing_input("C13:clone-fails", "Client.clone() raises %s" % e,
+                             {"probe": "clone", "history": [], "how": "schedule scenario"})
+            continue
     # --- (a) single preemption, two calls ---
     relations = ["same", "clone", "clone2", "separate"]
     pairs = [(a, b) for a in KIND_LIST for b in KIND_LIST]
@@ -1451,67 +1479,77 @@ def schedule_cases(ck, world, runner, rng, quick, memo_cells, suspicious_fp, fp_
     event_cache = {}
     t_budget = time.time() + (150 if quick else 3 * 3600)
     for pn, (ka, kb) in enumerate(pairs):
-        if time.time() > t_budget:
-            break
-        relation = "same" if (ka in hot and pn < 3 * len(hot)) else relations[pn % 4]
-        variants = ["plain"] if relation == "same" else ["plain", rng.choice(VARIANT_LIST[:3])]
-        ca, cb = (0, 0) if relation == "same" else (0, 1)
-        if rng.random() < 0.5:
-            ca, cb = cb, ca
-        setup = Setup(relation, variants, [(ca, ka, gen_spec(rng, ka, "A%d" % pn)),
-                                           (cb, kb, gen_spec(rng, kb, "B%d" % pn))])
-        ek = (ka, relation, ca, tuple(variants))
-        if ek not in event_cache:
-            event_cache[ek] = runner.count_events(setup, 0)
-        total_a, names = event_cache[ek]
-        ekb = (kb, relation, cb, tuple(variants))
-        if ekb not in event_cache:
-            event_cache[ekb] = runner.count_events(Setup(relation, variants, [setup.threads[1]]), 0)
-        totals = [total_a, event_cache[ekb][0]]
-        exhaustive = (not quick) and pn < 8
-        pts = pick_points(rng, names, per_pair or 60, exhaustive)
-        clients = None
-        for k in pts:
-            if time.time() > t_budget:
+        try:
+            if time.time() > t_budget or len([m for m in meta if m["what"]]) >= 3:
                 break
-            cold = (k % 3 == 0)
-            plan = [(0, k), (1, None)]
-            outs, s, solos, clients = runner.run_schedule(setup, plan, cold, clients=clients if not cold else clients)
-            record(setup, plan, cold, False, outs, s, solos, totals,
-                   "single-preemption %s" % ("exhaustive" if exhaustive else "sampled"))
-            if any(not (o["req_own"] and o["res"] == 0) for o in outs):
-                clients = None      # do not reuse possibly damaged state
-                if len([m for m in meta if m["what"]]) >= 3:
+            relation = "same" if (ka in hot and pn < 3 * len(hot)) else relations[pn % 4]
+            variants = ["plain"] if relation == "same" else ["plain", rng.choice(VARIANT_LIST[:3])]
+            ca, cb = (0, 0) if relation == "same" else (0, 1)
+            if rng.random() < 0.5:
+                ca, cb = cb, ca
+            setup = Setup(relation, variants, [(ca, ka, gen_spec(rng, ka, "A%d" % pn)),
+                                               (cb, kb, gen_spec(rng, kb, "B%d" % pn))])
+            ek = (ka, relation, ca, tuple(variants))
+            if ek not in event_cache:
+                event_cache[ek] = runner.count_events(setup, 0)
+            total_a, names = event_cache[ek]
+            ekb = (kb, relation, cb, tuple(variants))
+            if ekb not in event_cache:
+                event_cache[ekb] = runner.count_events(Setup(relation, variants, [setup.threads[1]]), 0)
+            totals = [total_a, event_cache[ekb][0]]
+            exhaustive = (not quick) and pn < 8
+            pts = pick_points(rng, names, 200 if (ka in hot and quick) else (per_pair or 60), exhaustive)
+            clients = None
+            for k in pts:
+                if time.time() > t_budget:
                     break
+                cold = (k % 3 == 0)
+                plan = [(0, k), (1, None)]
+                outs, s, solos, clients = runner.run_schedule(setup, plan, cold, clients=clients if not cold else clients)
+                record(setup, plan, cold, False, outs, s, solos, totals,
+                       "single-preemption %s" % ("exhaustive" if exhaustive else "sampled"))
+                if any(not (o["req_own"] and o["res"] == 0) for o in outs):
+                    clients = None      # do not reuse possibly damaged state
+                    if len([m for m in meta if m["what"]]) >= 3:
+                        break
+        except CloneFailed as e:
+            ck.failing_input("C13:clone-fails", "Client.clone() raises %s" % e,
+                             {"probe": "clone", "history": [], "how": "schedule scenario"})
+            continue
     # --- (b) random schedules, <= 3 preemptions, 2..4 threads, line granularity ---
     n_random = 60 if quick else 1500
     t_budget2 = time.time() + (60 if quick else 3600)
     for rn in range(n_random):
-        if time.time() > t_budget2:
-            break
-        nthreads = rng.choice([2, 2, 3, 4])
-        relation = rng.choice(relations)
-        nclients = 1 if relation == "same" else rng.choice([2, min(3, nthreads)])
-        variants = ["plain"] + [rng.choice(VARIANT_LIST[:3]) for _ in range(nclients - 1)]
-        threads = []
-        for t in range(nthreads):
-            kind = rng.choice(KIND_LIST if not hot or rng.random() < 0.5 else hot + ["enc-item", "enc-echo"])
-            threads.append((rng.randrange(nclients), kind, gen_spec(rng, kind, "R%d_%d" % (rn, t))))
-        setup = Setup(relation, variants, threads)
-        totals = []
-        for t, (c, kind, spec) in enumerate(threads):
-            ek = (kind, "lines")
-            if ek not in event_cache:
-                event_cache[ek] = runner.count_events(Setup("same", ["plain"], [(0, kind, spec)]), 0, lines=True)
-            totals.append(event_cache[ek][0])
-        npre = rng.choice([1, 2, 3, 3])
-        plan = []
-        for _ in range(npre):
-            t = rng.randrange(nthreads)
-            plan.append((t, rng.randrange(1, max(2, totals[t]))))
-        cold = rng.random() < 0.4
-        outs, s, solos, _ = runner.run_schedule(setup, plan, cold, lines=True)
-        record(setup, plan, cold, True, outs, s, solos, totals, "random <=3 preemptions, %d threads" % nthreads)
+        try:
+            if time.time() > t_budget2 or len([m for m in meta if m["what"]]) >= 3:
+                break
+            nthreads = rng.choice([2, 2, 3, 4])
+            relation = rng.choice(relations)
+            nclients = 1 if relation == "same" else rng.choice([2, min(3, nthreads)])
+            variants = ["plain"] + [rng.choice(VARIANT_LIST[:3]) for _ in range(nclients - 1)]
+            threads = []
+            for t in range(nthreads):
+                kind = rng.choice(KIND_LIST if not hot or rng.random() < 0.5 else hot + ["enc-item", "enc-echo"])
+                threads.append((rng.randrange(nclients), kind, gen_spec(rng, kind, "R%d_%d" % (rn, t))))
+            setup = Setup(relation, variants, threads)
+            totals = []
+            for t, (c, kind, spec) in enumerate(threads):
+                ek = (kind, "lines")
+                if ek not in event_cache:
+                    event_cache[ek] = runner.count_events(Setup("same", ["plain"], [(0, kind, spec)]), 0, lines=True)
+                totals.append(event_cache[ek][0])
+            npre = rng.choice([1, 2, 3, 3])
+            plan = []
+            for _ in range(npre):
+                t = rng.randrange(nthreads)
+                plan.append((t, rng.randrange(1, max(2, totals[t]))))
+            cold = rng.random() < 0.4
+            outs, s, solos, _ = runner.run_schedule(setup, plan, cold, lines=True)
+            record(setup, plan, cold, True, outs, s, solos, totals, "random <=3 preemptions, %d threads" % nthreads)
+        except CloneFailed as e:
+            ck.failing_input("C13:clone-fails", "Client.clone() raises %s" % e,
+                             {"probe": "clone", "history": [], "how": "schedule scenario"})
+            continue
     ck._sc_classes = classes
     if meta:
         good = [m for m in meta if not m["what"]]
